@@ -155,6 +155,13 @@ def ref_leaky_relu(x, zi, zo, mi, si, ma, sa, qmin, qmax):
     return min(qmax, max(qmin, u))
 
 
+def ref_prelu(x, zi, zo, azp, acode, m1, s1, m2, s2, qmin, qmax):
+    """TFLite reference/prelu.h, 8-bit, one element"""
+    iv = x - zi
+    o = ref_mbqm(iv, m1, s1) if iv >= 0 else ref_mbqm(wrap(32, iv * (acode - azp)), m2, s2)
+    return min(qmax, max(qmin, wrap(32, o + zo)))
+
+
 def ref_hardswish(x, zi, zo, relu_m16, relu_exp, out_m16, out_exp, qmin, qmax):
     iv = wrap(16, x - zi)
     hires = wrap(16, iv * 128)
@@ -465,7 +472,7 @@ def f32(x):
     return np.float32(x)
 
 
-def mk_op(optype, dtype, s_in, zp_in, s_out, zp_out, attrs=None, const_values=None):
+def mk_op(optype, dtype, s_in, zp_in, s_out, zp_out, attrs=None, const_values=None, const_input2=None):
     """tensors as tflite_reader produces them: np.float32 scale, np.int64 zero point"""
     from ethosu.vela.operation import Operation
     from ethosu.vela.tensor import QuantizationParameters, Tensor, create_const_tensor
@@ -489,6 +496,10 @@ def mk_op(optype, dtype, s_in, zp_in, s_out, zp_out, attrs=None, const_values=No
     ofm.quantization = q(s_out, zp_out)
     op = Operation(optype, "op")
     op.add_input_tensor(ifm)
+    if const_input2 is not None:
+        # (shape, fill code, scale, zero point): a constant second input, e.g. the alpha tensor of PRELU
+        shp, code, s2, zp2 = const_input2
+        op.add_input_tensor(create_const_tensor("in2", list(shp), dtype, np.full(list(shp), code), quantization=q(s2, zp2)))
     op.set_output_tensor(ofm)
     if attrs:
         op.attrs.update(attrs)
@@ -597,6 +608,86 @@ def check_tables(tier, rng, okx):
                 i = next((j for j in range(len(table)) if j >= len(gv) or st[j] != 1 or gv[j] != table[j]), 0)
                 out["corr"].setdefault(("lrelu", "model"), dict(key, code_index=i, model=mo[3 * i:3 * i + 3], impl=table[i]))
     out["dist"]["lrelu_tables"] = len(lr)
+
+    # ---- PRELU with a constant alpha that is the same in every channel -----------------------------
+    # convert_prelu turns it into a LeakyRelu carrying attrs["alpha_scaling"] = (alpha_code - alpha_zp, scale, shift),
+    # convert_lrelu -> convert_lrelu_to_lut builds the table from that triple.
+    # (dtype, ifm_scale, zp_in, ofm_scale, zp_out, alpha tensor scale, alpha zero point, alpha code)
+    pr = [("int8", 0.0625, 0, 0.0625, 0, 2.0 ** -7, -128, -96),        # slope 0.25 as the TFLite converter quantises it
+          ("int8", 0.05, -128, 0.05, -128, 0.002, -128, -28),            # slope 0.2
+          ("int8", 0.02, 3, 0.04, -5, 0.01, 0, 25), ("int8", 0.03, 10, 0.03, 10, 0.004, 17, -40),   # zp 0; "other" zp, negative slope
+          ("uint8", 0.1, 128, 0.05, 100, 0.003, 0, 100), ("uint8", 0.03, 0, 0.03, 255, 0.005, 128, 228),
+          ("uint8", 0.04, 120, 0.04, 120, 0.01, 200, 150), ("int8", 0.007, 0, 0.9, 0, 0.001, -128, 127),
+          ("int8", 0.5, -20, 0.004, 10, 0.0005, -128, 0), ("int8", 0.05, 127, 0.05, -128, 2.0 ** -8, -128, 127)]
+    for _ in range(8 * n):
+        dtn = rng.choice(["int8", "int8", "uint8"])
+        lo_, hi_ = (-128, 127) if dtn == "int8" else (0, 255)
+        azp = rng.choice([lo_, lo_, 0 if dtn == "uint8" else -128, (lo_ + hi_ + 1) // 2, rng.randrange(lo_, hi_ + 1)])
+        pr.append((dtn, rand_scale(rng), zp_for(dtn), rand_scale(rng), zp_for(dtn), rand_scale(rng, -12, -5), azp,
+                   rng.randrange(lo_, hi_ + 1)))
+    mcases, minfo = [], []
+    n_pr = 0
+    for dtn, si, zi, so, zo, asc, azp, acode in pr:
+        if acode == azp:
+            continue   # alpha = 0: converted to a ReLU, no table
+        dsi, dso, das = float(f32(si)), float(f32(so)), float(f32(asc))
+        cand = []
+        for am, im in ((dsi * das / dso, dsi / dso), (float(f32(f32(si) * f32(asc)) / f32(so)), float(f32(si) / f32(so)))):
+            ma, sa = ref_quantize_multiplier(am)
+            mi, smi = ref_quantize_multiplier(im)
+            cand.append((ma, sa, mi, smi))
+        if any(not (-15 <= sa <= 15 and smi <= 22) for ma, sa, mi, smi in cand):
+            continue   # multipliers outside the modelled range (alpha multiplier >= 2^15)
+        op, qmin, qmax = mk_op(Op.Prelu, dt_of(dtn), si, zi, so, zo, const_input2=([1, 1, 8], acode, asc, azp))
+        key = {"table": "prelu", "dtype": dtn, "ifm_scale": dsi, "zp_in": zi, "ofm_scale": dso, "zp_out": zo,
+               "alpha_scale": das, "alpha_zp": azp, "alpha_code": acode}
+        r = run_rewrite(tgo.convert_prelu, op, arch, None)
+        if r[0] == "ok":
+            asc_attr = op.attrs.get("alpha_scaling")
+            r = run_rewrite(tgo.convert_lrelu, op, arch, None)
+        out["tables"] += 1
+        n_pr += 1
+        if r[0] != "ok" or getattr(r[1], "activation_lut", None) is None:
+            out["viol"].setdefault(("prelu", "crash"), (dict(table="prelu", failure=r[1] if r[0] == "exc" else "no LUT"),
+                                                       dict(key, observed=list(r[1:]) if r[0] == "exc" else "no LUT"),
+                                                       "convert_prelu + convert_lrelu did not produce a table: %r" % (r[1:],)))
+            continue
+        table = [int(v) for v in r[1].activation_lut.values]
+        refs = [[ref_prelu(x, zi, zo, azp, acode, mi, smi, ma, sa, qmin, qmax) for x in range(qmin, qmax + 1)]
+                for ma, sa, mi, smi in cand]
+        bad = [i for i, v in enumerate(table) if v != refs[0][i] and v != refs[1][i]]
+        really_bad = []
+        alpha_real = Fraction(das) * (acode - azp)
+        for i in bad:     # what the property text itself asks for: the rounded, saturated real value
+            x = qmin + i
+            real = Fraction(dsi) * (x - zi) * (alpha_real if x < zi else 1) / Fraction(dso) + zo
+            real = min(Fraction(qmax), max(Fraction(qmin), real))
+            if abs(table[i] - real) > Fraction(1, 2) + Fraction(1, 1024):
+                really_bad.append(i)
+        out["evals"] += len(table)
+        out["nontrivial"].add(("prelu", dtn, dsi, zi, dso, zo, das, azp, acode))
+        if really_bad:
+            i = really_bad[0]
+            out["viol"].setdefault(("prelu", "value", bool(azp != 0)), (
+                dict(table="prelu", failure="value", alpha_zero_point_nonzero=bool(azp != 0)),
+                dict(key, code=qmin + i, observed=table[i], reference_double=refs[0][i], reference_float32=refs[1][i],
+                     alpha_real=float(alpha_real), n_bad=len(really_bad), alpha_scaling_attr=[int(v) for v in asc_attr] if asc_attr else None),
+                "PRELU (constant uniform alpha %.6g = %r*(%d - %d)) table entry for code %d is %d, the Prelu reference kernel gives %d "
+                "(%d of 256 entries wrong)" % (float(alpha_real), das, acode, azp, qmin + i, table[i], refs[1][i], len(really_bad))))
+        # model correspondence with the integer parameters the real scaling functions give (float32 operands, as convert_prelu passes)
+        ids, idsh = scaling.elementwise_mul_scale(np.double(f32(si)), 1, np.double(f32(so)))
+        als, alsh = scaling.elementwise_mul_scale(f32(si), f32(asc), f32(so))
+        mcases.append([zi, zo, azp, acode, int(ids), int(idsh), int(als), int(alsh), qmin, qmax])
+        minfo.append((key, table))
+        if n_pr <= 1:
+            out["samples"].append(dict(key, first_entries=table[:6], last_entries=table[-4:]))
+    if okx and mcases:
+        for (key, table), mo in zip(minfo, prun("prelu_table", mcases, chunks=min(8, len(mcases)))):
+            st, gv = mo[0::3], mo[1::3]
+            if any(s_ != 1 for s_ in st) or gv != table:
+                i = next((j for j in range(len(table)) if j >= len(gv) or st[j] != 1 or gv[j] != table[j]), 0)
+                out["corr"].setdefault(("prelu", "model"), dict(key, code_index=i, model=mo[3 * i:3 * i + 3], impl=table[i]))
+    out["dist"]["prelu_tables"] = n_pr
 
     # ---- hard swish -------------------------------------------------------------------------
     hs = [("int8", 0.005, -128, 0.04, -128), ("int8", 0.011, 0, 0.011, 0), ("uint8", 0.003, 128, 0.003, 128), ("int8", 0.0117, -3, 0.02, 5),
